@@ -666,7 +666,11 @@ func (e *simEnv) checkUnread(res drive.Result, f *refmatch.Flow, tag string) {
 		return
 	}
 	n := int(e.spec.MaxTTL) - int(e.spec.MinTTL) + 1
-	end := f.Probes[0].SentAt.Add(e.spec.Timeout + time.Duration(n)*e.spec.Delay - poll)
+	// the listening window of a parallel run ends at (first send + timeout + n*delay): polls follow each other without a
+	// gap, so a frame that reaches the handle before that instant finds a poll waiting (virtual time: exact). SACK runs
+	// start their engine after the handshake, at the first send as well.
+	end := f.Probes[0].SentAt.Add(e.spec.Timeout + time.Duration(n)*e.spec.Delay)
+	_ = poll
 	e.w.Lock()
 	var unread []*simnet.Delivery
 	for _, d := range e.w.Deliveries {
@@ -685,7 +689,7 @@ func (e *simEnv) checkUnread(res drive.Result, f *refmatch.Flow, tag string) {
 		if idx < 0 || idx >= len(res.Run.Hops) {
 			continue // beyond the destination hop
 		}
-		e.c.Violate("C02", "reply-never-read/"+v.Name, fmt.Sprintf("%s: frame #%d (%s, answers probe %d) reached the capture handle %v before the end of the listening window but was never read", tag, d.Frame.ID, d.Frame.Class, o.TTL, end.Sub(d.At)+poll), fmtRun(res))
+		e.c.Violate("C02", "reply-never-read/"+v.Name, fmt.Sprintf("%s: frame #%d (%s, answers probe %d) reached the capture handle %v before the end of the listening window but was never read", tag, d.Frame.ID, d.Frame.Class, o.TTL, end.Sub(d.At)), fmtRun(res))
 		return
 	}
 }
